@@ -334,5 +334,921 @@ def g_iter_branch_steps(R, tier):
                     sym.set_ctx(None)
 
 
-GROUPS = {"iter_branch": g_iter_branch, "iter_branch_steps": g_iter_branch_steps, "canary": c13.g_canary}
+
+# ----------------------------------------------------------------------------------------
+# G2: interrupts
+
+
+def mk_loop(tag, kinds=("while", "for")):
+    pn = CL.pn()
+    kmap = {"while": pn.PendingWhile, "for": pn.PendingFor}
+    t = tag if isinstance(tag, tuple) else (tag,)
+    name = tagstr(tag)
+    return Opaque(tag, None, cands=frozenset(kmap[k] for k in kinds), setattr=CL._setattr_field, fields=dict(
+        break_cnt=SInt(z3.Int(f"brk0({name})")), interrupt_cnt=SInt(z3.Int(f"int0({name})")),
+        interrupt_node_bodies=[], flow_ctrl_break_expr=ast.Name(id=Hole(("brkflag",) + t, "ident", fresh=True)),
+        flow_ctrl_wrapped_iter_expr=ast.Name(id=Hole(("it",) + t, "ident", fresh=True)),
+        flow_ctrl_interrupt_expr=ast.Name(id=Hole(("intflag",) + t, "ident", fresh=True)), flow_ctrl_interrupt_used=False))
+
+
+def loop_flag_keys(loop):
+    return {"while": ("name", TL.nk(loop.fields["flow_ctrl_break_expr"].id)), "for": ("brk", TL.nk(loop.fields["flow_ctrl_wrapped_iter_expr"].id))}
+
+
+def g_interrupts(R, tier):
+    pn = CL.pn()
+    # ---- break / continue ------------------------------------------------------------
+    for cls, name, breaks in ((pn.PendingBreak, "PendingBreak", True), (pn.PendingContinue, "PendingContinue", False)):
+        base = f"pending_nodes.{name}"
+
+        def run_empty(c):
+            m = Machine(stubs=stubs())
+            node = (ast.Break if breaks else ast.Continue)(lineno=1, col_offset=0)
+            return CL.mk_pending(cls, node, CL.mk_nsp(), CL.mk_global(), m=m)
+        for p in explore(run_empty):
+            R.check(f"{base}.__init__/outside-a-loop-raises-SyntaxError", p.kind == "raise" and isinstance(p.value, SyntaxError), repr(p.value),
+                    replay=dict(kind="src", src="def f():\n    %s\n" % ("break" if breaks else "continue"), expect="SyntaxError"))
+
+        def run(c):
+            m = Machine(stubs=stubs())
+            node = (ast.Break if breaks else ast.Continue)(lineno=1, col_offset=0)
+            outer, top = mk_loop("outer"), mk_loop("top")
+            nsp = CL.mk_nsp(loop_stack=[outer, top])
+            before = {k: (l.fields["break_cnt"], l.fields["interrupt_cnt"]) for k, l in (("outer", outer), ("top", top))}
+            self_ = CL.mk_pending(cls, node, nsp, CL.mk_global(), m=m)
+            after = {k: (l.fields["break_cnt"], l.fields["interrupt_cnt"]) for k, l in (("outer", outer), ("top", top))}
+            res = m.call_value(cls.get_result, self_)
+            return dict(res=res, outer=outer, top=top, before=before, after=after)
+        paths = explore(run)
+        if not paths_or_undecided(R, base + "/paths", paths):
+            continue
+        for p in paths:
+            sig = p.ctx.signature()
+            if p.kind != "ok":
+                R.fail(f"{base}/no-unexpected-raise/{sig}", repr(p.value))
+                continue
+            c, v = p.ctx, p.value
+            sym.set_ctx(c)
+            try:
+                b0, i0 = v["before"]["top"]
+                b1, i1 = v["after"]["top"]
+                R.valid(f"{base}.__init__/innermost-loop-interrupt-counter-grows/{sig}", c, zint(i1) > zint(i0))
+                if breaks:
+                    R.valid(f"{base}.__init__/innermost-loop-break-counter-grows/{sig}", c, zint(b1) > zint(b0))
+                else:
+                    R.valid(f"{base}.__init__/continue-does-not-count-as-break/{sig}", c, zint(b1) == zint(b0))
+                ob0, oi0 = v["before"]["outer"]
+                ob1, oi1 = v["after"]["outer"]
+                R.valid(f"{base}.__init__/outer-loops-untouched/{sig}", c, z3.And(zint(ob1) == zint(ob0), zint(oi1) == zint(oi0)))
+                top = v["top"]
+                res = v["res"]
+                reg = top.fields["interrupt_node_bodies"]
+                ok = isinstance(res, list) and len(res) == 1 and isinstance(res[0], ast.List) and len(reg) == 1 and res[0].elts is reg[0]
+                R.check(f"{base}.get_result/emitted-body-is-the-one-registered-with-the-loop/{sig}", ok,
+                        "the list placed in the output must be the very object registered in loop.interrupt_node_bodies (the loop appends its flag write to it later)")
+                if ok:
+                    keys = loop_flag_keys(top)
+                    flags = {k: z3.BoolVal(False) for k in keys.values()}
+                    sem = control.Sem(flags=flags)
+                    sem.seq(res)
+                    kind = "while" if top.cands == frozenset([pn.PendingWhile]) else "for"
+                    want = breaks
+                    got = z3.is_true(z3.simplify(sem.state[keys[kind]]))
+                    other = z3.is_true(z3.simplify(sem.state[keys["for" if kind == "while" else "while"]]))
+                    R.check(f"{base}.get_result/{'sets' if breaks else 'does-not-set'}-the-break-flag-of-the-innermost-{kind}-loop/{sig}",
+                            got == want and not other, f"break flag after the statement: {sem.state}", backend="z3")
+            finally:
+                sym.set_ctx(None)
+
+    # ---- return -----------------------------------------------------------------------------
+    base = "pending_nodes.PendingReturn"
+
+    def run_ret(c):
+        m = Machine(stubs=stubs())
+        has_value = not c.branch(z3.Bool("value.is_none"))
+        node = ast.Return(value=CL.src("V") if has_value else None, lineno=1, col_offset=0)
+        L1, L2 = CL.seg("L1", mk_loop), CL.seg("L2", mk_loop)
+        nsp = CL.mk_nsp("fn", loop_stack=[L1, L2], return_cnt=SInt(z3.Int("ret0")),
+                        return_value_expr=ast.Name(id=Hole("retv", "ident", fresh=True)), return_node_bodies=[])
+        snap = lambda: {k: (s_.items[0].fields["break_cnt"], s_.items[0].fields["interrupt_cnt"]) for k, s_ in (("L1", L1), ("L2", L2))}
+        before = snap()
+        self_ = CL.mk_pending(pn.PendingReturn, node, nsp, CL.mk_global(), m=m)
+        after = snap()
+        res = m.call_value(pn.PendingReturn.get_result, self_)
+        return dict(res=res, nsp=nsp, L1=L1, L2=L2, before=before, after=after, has_value=has_value)
+    paths = explore(run_ret)
+    if paths_or_undecided(R, base + "/paths", paths):
+        seen_ok = 0
+        for p in paths:
+            sig = p.ctx.signature()
+            c = p.ctx
+            nsp_is_fn = any("fn is NamespaceFunction" in f for f in c.facts)
+            if p.kind == "raise":
+                R.check(f"{base}.__init__/outside-a-function-raises-SyntaxError/{sig}", isinstance(p.value, SyntaxError) and not nsp_is_fn, repr(p.value),
+                        replay=dict(kind="src", src="class A:\n    return 1\n", expect="SyntaxError"))
+                continue
+            if p.kind != "ok":
+                continue
+            seen_ok += 1
+            v = p.value
+            sym.set_ctx(c)
+            try:
+                R.check(f"{base}.__init__/accepted-only-inside-a-function/{sig}", nsp_is_fn, repr(c.facts))
+                R.valid(f"{base}.__init__/function-return-counter-grows/{sig}", c, zint(v["nsp"].fields["return_cnt"]) > z3.Int("ret0"))
+                for k in ("L1", "L2"):
+                    sg = v[k]
+                    if c13._provably_zero(c, sg.length):
+                        continue
+                    (b0, i0), (b1, i1) = v["before"][k], v["after"][k]
+                    c.pc.extend([sg.jvar >= 0, sg.jvar < zint(sg.length)])
+                    try:
+                        R.valid(f"{base}.__init__/every-enclosing-loop-counts-a-break-and-an-interrupt/{k}/{sig}", c,
+                                z3.And(zint(b1) > zint(b0), zint(i1) > zint(i0)),
+                                "return must mark EVERY loop on the function's loop stack, not only the innermost")
+                    finally:
+                        del c.pc[-2:]
+                res = v["res"]
+                ok = isinstance(res, list) and len(res) == 1 and isinstance(res[0], ast.List)
+                R.check(f"{base}.get_result/one-list-expression/{sig}", ok, repr(res))
+                if not ok:
+                    continue
+                rv = res[0].elts
+                reg_fn = v["nsp"].fields["return_node_bodies"]
+                R.check(f"{base}.get_result/registered-with-the-function/{sig}", len(reg_fn) == 1 and reg_fn[0] is rv, repr(reg_fn))
+                for k in ("L1", "L2"):
+                    sg = v[k]
+                    if c13._provably_zero(c, sg.length):
+                        continue
+                    regs = sg.items[0].fields["interrupt_node_bodies"]
+                    R.check(f"{base}.get_result/registered-with-every-enclosing-loop/{k}/{sig}", len(regs) == 1 and regs[0] is rv, repr(regs))
+                # value stored once, first, in the function scope; then one flag write per loop
+                ev = c13.EvalA()
+                ev.seq(list(rv))
+                tr = TL.observable(ev.tr, keep_tmp=True)
+                if v["has_value"]:
+                    okv = len(tr) >= 2 and tr[0] == ("ev", "fn", "V") and tr[1][0] == "tmpbind" and tr[1][1] == ("id", "retv") and tr[1][2] == ("val", "V")
+                    R.check(f"{base}.get_result/value-evaluated-once-and-stored-in-the-return-slot-first/{sig}", okv and sum(1 for e in c13._flat(tr) if e[0] == "ev") == 1, TL.show(tr))
+                else:
+                    R.check(f"{base}.get_result/bare-return-stores-nothing/{sig}", not any(e[0] in ("ev", "tmpbind") and (e[0] == "ev" or e[1] == ("id", "retv")) for e in c13._flat(tr)), TL.show(tr))
+                # flag writes: every loop's break flag becomes true
+                for k in ("L1", "L2"):
+                    sg = v[k]
+                    if c13._provably_zero(c, sg.length):
+                        continue
+                    loop = sg.items[0]
+                    keys = loop_flag_keys(loop)
+                    kind = "while" if loop.cands == frozenset([pn.PendingWhile]) else "for"
+                    sem = control.Sem(flags={kk: z3.BoolVal(False) for kk in keys.values()})
+                    items = [x for x in rv if isinstance(x, Seg) and any(_mentions(i, sg.jvar) for i in x.items)]
+                    good = False
+                    if len(items) == 1:
+                        for it in items[0].items:
+                            sem.expr(it)
+                        good = z3.is_true(z3.simplify(sem.state[keys[kind]]))
+                    R.check(f"{base}.get_result/sets-the-break-flag-of-every-enclosing-{kind}-loop/{k}/{sig}", good,
+                            f"flag writes for {k}: {items!r}; state {sem.state}", backend="z3")
+            finally:
+                sym.set_ctx(None)
+        R.check(f"{base}/function-case-reached", seen_ok > 0, f"{seen_ok} accepting paths (vacuity guard)")
+
+
+def _mentions(v, j):
+    from olvc.evaluator import _value_mentions
+    return _value_mentions(v, j, depth=6)
+
+
+# ----------------------------------------------------------------------------------------
+# G3/G4: loops
+
+
+def find_comprehension(res):
+    comps = [x for x in res if isinstance(x, ast.ListComp)]
+    return comps[0] if len(comps) == 1 else None
+
+
+def loop_shapes():
+    for brk in (False, True):
+        for intr_used in (False, True):
+            for has_else in (False, True):
+                yield brk, intr_used, has_else
+
+
+def prepare_loop(self_, brk, intr_used, has_else):
+    """state that the conversion of the children leaves behind"""
+    self_.break_cnt = SInt(z3.Int("break_cnt"))
+    ctx().assume(z3.Int("break_cnt") > 0 if brk else z3.Int("break_cnt") == 0)
+    self_.interrupt_cnt = SInt(z3.Int("interrupt_cnt"))
+    ctx().assume(z3.Int("interrupt_cnt") >= z3.Int("break_cnt"))
+    self_.flow_ctrl_interrupt_used = intr_used
+    self_.converted_body = R_list("BODY")
+    self_.converted_orelse = R_list("ELSE") if has_else else []
+    self_.interrupt_node_bodies = [CL.seg("REG", lambda t: [CL.absnode(("R", ("reg", t)), ("R", tagstr(("reg", t))))])]
+
+
+def R_list(tag):
+    return [CL.seg(tag, lambda t: CL.absnode(("R", t), ("R", tagstr(t))))]
+
+
+def check_loop_common(R, nm, c, self_, res, intr_key, intr_used, body_list):
+    """flag reset at the head of every iteration; injected flag write in every registered body"""
+    comp = find_comprehension(res)
+    R.check(f"{nm}/exactly-one-loop-comprehension", comp is not None, repr(res))
+    if comp is None:
+        return None
+    elt = comp.elt
+    sem = control.Sem(flags={intr_key: z3.BoolVal(True)})   # stale flag from the previous iteration
+    try:
+        sem.expr(elt)
+    except TL.NotInFragment as e:
+        R.undecided(f"{nm}/reading", str(e))
+        return comp
+    body_execs = [e for e in sem.execs if e[0] in ("stmt", "stmts")]
+    if intr_used:
+        reset_first = bool(sem.writes) and sem.writes[0][0] == intr_key and sem.writes[0][1] is False
+        stmt_times = [t for e, t in zip(sem.execs, sem.execs.times) if e[0] in ("stmt", "stmts")]
+        before_body = reset_first and (not stmt_times or sem.writes.times[0] < min(stmt_times))
+        R.check(f"{nm}/interrupt-flag-cleared-at-the-head-of-each-iteration", before_body and z3.is_false(z3.simplify(sem.state[intr_key])),
+                f"flag writes in the element: {sem.writes!r}", backend="z3",
+                replay=dict(kind="skeleton"))
+    regs = self_.interrupt_node_bodies[0]
+    last = regs.items[0][-1] if regs.items[0] else None
+    semr = control.Sem(flags={intr_key: z3.BoolVal(False)})
+    if last is not None and not (isinstance(last, Opaque)):
+        semr.expr(last)
+    sets = z3.is_true(z3.simplify(semr.state[intr_key]))
+    R.check(f"{nm}/every-registered-interrupt-body-sets-the-flag-iff-it-is-tested", sets == intr_used,
+            f"registered body ends with {last!r}; flag used: {intr_used}", backend="z3", replay=dict(kind="skeleton"))
+    return comp
+
+
+def g_while(R, tier):
+    pn = CL.pn()
+    base = "pending_nodes.PendingWhile.get_result"
+    for brk, intr_used, has_else in loop_shapes():
+        def run(c):
+            m = Machine(stubs=stubs())
+            node = ast.While(test=CL.src("test"), body=[], orelse=[])
+            nsp = CL.mk_nsp()
+            G = CL.mk_global()
+            self_ = CL.mk_pending(pn.PendingWhile, node, nsp, G, m=m)
+            on_stack = list(nsp.fields["loop_stack"])
+            prepare_loop(self_, brk, intr_used, has_else)
+            res = m.call_value(pn.PendingWhile.get_result, self_)
+            return dict(res=res, self_=self_, on_stack=on_stack, G=G)
+        paths = explore(run)
+        nm = f"{base}[{'break' if brk else 'no-break'},{'flag' if intr_used else 'no-flag'},{'else' if has_else else 'no-else'}]"
+        if not paths_or_undecided(R, nm + "/paths", paths):
+            continue
+        for p in paths:
+            if p.kind != "ok":
+                R.fail(f"{nm}/no-unexpected-raise", repr(p.value))
+                continue
+            c, v = p.ctx, p.value
+            self_, res = v["self_"], v["res"]
+            sym.set_ctx(c)
+            try:
+                R.check(f"{nm}/constructor-pushes-the-loop", v["on_stack"] == [self_] and v["G"].use_itertools is True, repr(v["on_stack"]))
+                brk_key = ("name", TL.nk(self_.flow_ctrl_break_expr.id))
+                intr_key = ("name", TL.nk(self_.flow_ctrl_interrupt_expr.id))
+                comp = check_loop_common(R, nm, c, self_, res, intr_key, intr_used, self_.converted_body)
+                if comp is None:
+                    continue
+                # break flag cleared before the loop
+                pre = res[:res.index(comp)]
+                sem = control.Sem(flags={brk_key: z3.BoolVal(True)})
+                sem.seq(pre)
+                if brk:
+                    R.check(f"{nm}/break-flag-cleared-before-the-loop", z3.is_false(z3.simplify(sem.state[brk_key])), repr(pre), backend="z3",
+                            replay=dict(kind="skeleton"))
+                # the loop idiom and its test
+                g = comp.generators[0] if len(comp.generators) == 1 else None
+                it = g.iter if g is not None else None
+                idiom = (isinstance(it, ast.Call) and isinstance(it.func, ast.Attribute) and it.func.attr == "takewhile"
+                         and isinstance(it.func.value, ast.Name) and it.func.value.id == "itertools" and len(it.args) == 2
+                         and isinstance(it.args[0], ast.Lambda) and len(it.args[0].args.args) == 1 and not g.ifs
+                         and isinstance(it.args[1], ast.Call) and isinstance(it.args[1].func, ast.Attribute) and it.args[1].func.attr == "count" and not it.args[1].args)
+                R.check(f"{nm}/while-idiom", bool(idiom), "expected [elt for _ in itertools.takewhile(lambda _: TEST, itertools.count())]")
+                if not idiom:
+                    continue
+                b = z3.Bool("brk")
+                semt = control.Sem(flags={brk_key: b})
+                tv = semt.bool_of(it.args[0].body)
+                evs = [e for e in semt.execs if e[0] == "ev" and e[1] == "test"]
+                want_cond = z3.Not(b) if brk else z3.BoolVal(True)
+                want_val = z3.And(z3.Not(b), z3.Bool("truth:test")) if brk else z3.Bool("truth:test")
+                okc = len(evs) == 1 and c.valid(evs[0][2] == want_cond)[0]
+                okv = c.valid(tv == want_val)[0]
+                R.check(f"{nm}/test-evaluated-once-per-iteration-and-never-after-a-break", okc, f"test runs under {[str(e[2]) for e in evs]}, expected {want_cond}",
+                        backend="z3", replay=dict(kind="skeleton"))
+                R.check(f"{nm}/loop-continues-iff-not-broken-and-test-true", okv, f"loop condition {z3.simplify(tv)}, expected {want_val}", backend="z3",
+                        replay=dict(kind="skeleton"))
+                # else clause
+                post = res[res.index(comp) + 1:]
+                if has_else:
+                    ELSE = self_.converted_orelse[0]
+                    if c13._provably_zero(c, ELSE.length):
+                        continue
+                    seme = control.Sem(flags={brk_key: b})
+                    seme.seq(post)
+                    ex = [e for e in seme.execs if e[0] == "stmts"]
+                    want_e = z3.Not(b) if brk else z3.BoolVal(True)
+                    R.check(f"{nm}/else-runs-iff-the-loop-was-not-broken", len(ex) == 1 and c.valid(ex[0][2] == want_e)[0],
+                            f"else runs under {[str(e[2]) for e in ex]}, expected {want_e}", backend="z3", replay=dict(kind="skeleton"))
+                else:
+                    R.check(f"{nm}/nothing-after-the-loop-without-else", not post, repr(post))
+            finally:
+                sym.set_ctx(None)
+
+
+def g_for(R, tier):
+    pn = CL.pn()
+    pr = __import__("olvc.extract", fromlist=["x"]).repo_module("oneliner.presets.iter_wrapper")
+    base = "pending_nodes.PendingFor.get_result"
+    for brk, intr_used, has_else in loop_shapes():
+        for interrupted in ((True,) if (brk or intr_used) else (False, True)):
+            def run(c):
+                m = Machine(stubs=stubs())
+                node = ast.For(target=CL.src("target", ast.expr, only=[ast.Name, ast.Tuple, ast.List, ast.Attribute, ast.Subscript, ast.Starred]),
+                               iter=CL.src("iter"), body=[], orelse=[] if not has_else else [ast.Pass()])
+                nsp = CL.mk_nsp()
+                G = CL.mk_global()
+                self_ = CL.mk_pending(pn.PendingFor, node, nsp, G, m=m)
+                on_stack = list(nsp.fields["loop_stack"])
+                prepare_loop(self_, brk, intr_used, has_else)
+                if not interrupted:
+                    c.assume(z3.Int("interrupt_cnt") == 0)
+                else:
+                    c.assume(z3.Int("interrupt_cnt") > 0)
+                res = m.call_value(pn.PendingFor.get_result, self_)
+                return dict(res=res, self_=self_, on_stack=on_stack, G=G, node=node)
+            paths = explore(run)
+            nm = f"{base}[{'break' if brk else 'no-break'},{'flag' if intr_used else 'no-flag'},{'else' if has_else else 'no-else'},{'interrupts' if interrupted else 'no-interrupts'}]"
+            if not paths_or_undecided(R, nm + "/paths", paths):
+                continue
+            for p in paths:
+                if p.kind != "ok":
+                    R.fail(f"{nm}/no-unexpected-raise", repr(p.value))
+                    continue
+                c, v = p.ctx, p.value
+                self_, res, node = v["self_"], v["res"], v["node"]
+                sym.set_ctx(c)
+                try:
+                    R.check(f"{nm}/constructor-pushes-the-loop", v["on_stack"] == [self_], repr(v["on_stack"]))
+                    it_key = ("brk", TL.nk(self_.flow_ctrl_wrapped_iter_expr.id))
+                    intr_key = ("name", TL.nk(self_.flow_ctrl_interrupt_expr.id))
+                    comp = check_loop_common(R, nm, c, self_, res, intr_key, intr_used, self_.converted_body)
+                    if comp is None:
+                        continue
+                    g = comp.generators[0] if len(comp.generators) == 1 else None
+                    R.check(f"{nm}/loop-target-is-the-source-target", g is not None and g.target is node.target and not g.ifs and not g.is_async, repr(g and g.target))
+                    # the iterable: evaluated exactly once, before the first iteration
+                    ev = c13.EvalA()
+                    ev.seq(res)
+                    flat = list(c13._flat(TL.observable(ev.tr, keep_tmp=True)))
+                    n_it = sum(1 for e in flat if e[:3] == ("ev", "nsp", "iter"))
+                    loops = [e for e in TL.observable(ev.tr) if e[0] == "loop"]
+                    inside = sum(1 for l in loops for e in c13._flat(l[4]) if e[:3] == ("ev", "nsp", "iter"))
+                    R.check(f"{nm}/iterable-evaluated-once-outside-the-loop-body", n_it == 1 and inside == 0, f"{n_it} evaluations, {inside} inside the element",
+                            replay=dict(kind="skeleton"))
+                    pre = res[:res.index(comp)]
+                    post = res[res.index(comp) + 1:]
+                    if brk:
+                        # wrapped iterator: created once before the loop, iterated by the loop
+                        w = pre[0] if len(pre) == 1 else None
+                        okw = (isinstance(w, ast.NamedExpr) and w.target is self_.flow_ctrl_wrapped_iter_expr and isinstance(w.value, ast.Call)
+                               and isinstance(w.value.func, ast.Name) and w.value.func.id == pr.iter_wrapper_name.id and len(w.value.args) == 1
+                               and not w.value.keywords and g.iter is self_.flow_ctrl_wrapped_iter_expr)
+                        R.check(f"{nm}/iterable-wrapped-once-and-the-loop-iterates-the-wrapper", bool(okw) and v["G"].use_preset_iter_wrapper is True,
+                                f"pre-loop {pre!r}, loop iterates {g.iter!r}", replay=dict(kind="skeleton"))
+                    else:
+                        R.check(f"{nm}/no-wrapper-without-break", not pre and isinstance(g.iter, Opaque) and g.iter.props.get("sem", (0,))[0] == "T", repr(pre))
+                    if has_else:
+                        ELSE = self_.converted_orelse[0]
+                        if c13._provably_zero(c, ELSE.length):
+                            continue
+                        b = z3.Bool("brk")
+                        seme = control.Sem(flags={it_key: b})
+                        seme.seq(post)
+                        ex = [e for e in seme.execs if e[0] == "stmts"]
+                        want_e = z3.Not(b) if brk else z3.BoolVal(True)
+                        R.check(f"{nm}/else-runs-iff-the-loop-was-not-broken", len(ex) == 1 and c.valid(ex[0][2] == want_e)[0],
+                                f"else runs under {[str(e[2]) for e in ex]}, expected {want_e}", backend="z3", replay=dict(kind="skeleton"))
+                    else:
+                        R.check(f"{nm}/nothing-after-the-loop-without-else", not post, repr(post))
+                finally:
+                    sym.set_ctx(None)
+
+
+
+# ----------------------------------------------------------------------------------------
+# which level a block is split on
+
+
+def branch_stub(calls):
+    def stub(it, self_, converted, branch, get_cnt, get_flag):
+        calls.append(dict(converted=converted, branch=branch, get_cnt=get_cnt, get_flag=get_flag))
+
+        def nothing():
+            return None
+            yield
+        return IGen(nothing(), "_iter_branch-contract")
+    return {"oneliner.pending_nodes:_PendingCompoundStmt._iter_branch": stub}
+
+
+def drain(gen):
+    while True:
+        try:
+            gen.send(None)
+        except IRaise as e:
+            if isinstance(e.exc, IStop):
+                return
+            raise
+
+
+def level_of(m, call, levels):
+    """identify which counter/flag pair the getters denote: bump each candidate counter and
+    see which one the getter follows; call the flag getter and see whose flag it returns"""
+    out = {}
+    base = m.call_value(call["get_cnt"])
+    for name, (bump, flagexpr) in levels.items():
+        bump()
+        now = m.call_value(call["get_cnt"])
+        same = (now is base) or (isinstance(now, int) and isinstance(base, int) and now == base) or \
+            (isinstance(now, SInt) and isinstance(base, SInt) and now.t.eq(base.t))
+        if not same:
+            out["counter"] = name
+            base = now
+    if "counter" not in out:
+        out["counter"] = "none"
+    try:
+        f = m.call_value(call["get_flag"])
+        out["flag"] = next((n for n, (_, fe) in levels.items() if fe is f), "unknown")
+    except IRaise as e:
+        out["flag"] = "never" if isinstance(e.exc, RuntimeError) else repr(e.exc)
+    return out
+
+
+def mk_level_loop(tag):
+    flag = ast.Name(id=Hole(("intflag", tag), "ident", fresh=True))
+    state = {"cnt": 0}
+    lp = Opaque(tag, None, cands=frozenset([CL.pn().PendingWhile]), setattr=CL._setattr_field,
+                fields=dict(interrupt_cnt=0, break_cnt=0, flow_ctrl_interrupt_expr=flag),
+                methods=dict(get_flow_ctrl_expr=lambda o: flag))
+
+    def bump():
+        lp.fields["interrupt_cnt"] = lp.fields["interrupt_cnt"] + 1
+    return lp, (bump, flag)
+
+
+def mk_level_function(tag, loop_stack):
+    flag = ast.Name(id=Hole(("retflag", tag), "ident", fresh=True))
+    nsp = CL.mk_nsp(tag, kinds=("function",), loop_stack=loop_stack, return_cnt=0)
+    nsp.props["methods"]["get_flow_ctrl_expr"] = lambda o: flag
+
+    def bump():
+        nsp.fields["return_cnt"] = nsp.fields["return_cnt"] + 1
+    return nsp, (bump, flag)
+
+
+def g_iter_nodes(R, tier):
+    pn = CL.pn()
+    # ---- if ---------------------------------------------------------------------------
+    for place in ("in-loop", "in-function", "elsewhere"):
+        def run(c):
+            calls = []
+            m = Machine(stubs=stubs(branch_stub(calls)))
+            levels = {}
+            if place == "in-loop":
+                outer, lo = mk_level_loop("outerloop")
+                inner, li = mk_level_loop("innerloop")
+                nsp, lf = mk_level_function("fn", [outer, inner])
+                levels = {"outer-loop": lo, "innermost-loop": li, "function": lf}
+            elif place == "in-function":
+                nsp, lf = mk_level_function("fn", [])
+                levels = {"function": lf}
+            else:
+                nsp = CL.mk_nsp("mod", kinds=("global", "class"))
+            node = ast.If(test=CL.src("t"), body=[plain_stmt("b")], orelse=[plain_stmt("e")])
+            self_ = CL.mk_pending(pn.PendingIf, node, nsp, CL.mk_global(), m=m)
+            drain(self_.iter_node)
+            got = [level_of(m, call, levels) for call in calls]
+            return dict(calls=calls, got=got, self_=self_, node=node)
+        paths = explore(run)
+        nm = f"pending_nodes.PendingIf._iter_nodes[{place}]"
+        if not paths_or_undecided(R, nm + "/paths", paths):
+            continue
+        for p in paths:
+            sig = p.ctx.signature()
+            if p.kind != "ok":
+                R.fail(f"{nm}/no-unexpected-raise/{sig}", repr(p.value))
+                continue
+            v = p.value
+            calls = v["calls"]
+            ok = (len(calls) == 2 and calls[0]["branch"] is v["node"].body and calls[0]["converted"] is v["self_"].converted_body
+                  and calls[1]["branch"] is v["node"].orelse and calls[1]["converted"] is v["self_"].converted_orelse)
+            R.check(f"{nm}/body-then-else-each-into-its-own-list/{sig}", ok, repr([(c_["branch"], c_["converted"]) for c_ in calls]))
+            want = {"in-loop": dict(counter="innermost-loop", flag="innermost-loop"), "in-function": dict(counter="function", flag="function"),
+                    "elsewhere": dict(counter="none", flag="never")}[place]
+            R.check(f"{nm}/blocks-split-on-the-innermost-enclosing-level/{sig}", all(g == want for g in v["got"]), f"{v['got']} expected {want}",
+                    replay=dict(kind="skeleton"))
+
+    # ---- loops ----------------------------------------------------------------------------
+    for cls_name in ("PendingWhile", "PendingFor"):
+        for place in ("in-loop", "in-function", "elsewhere"):
+            def run(c):
+                calls = []
+                m = Machine(stubs=stubs(branch_stub(calls)))
+                levels = {}
+                if place == "in-loop":
+                    outer, lo = mk_level_loop("outerloop")
+                    nsp, lf = mk_level_function("fn", [outer])
+                    levels = {"enclosing-loop": lo, "function": lf}
+                elif place == "in-function":
+                    nsp, lf = mk_level_function("fn", [])
+                    levels = {"function": lf}
+                else:
+                    nsp = CL.mk_nsp("mod", kinds=("global", "class"))
+                cls = getattr(pn, cls_name)
+                if cls_name == "PendingWhile":
+                    node = ast.While(test=CL.src("t"), body=[plain_stmt("b")], orelse=[plain_stmt("e")])
+                else:
+                    node = ast.For(target=CL.src("tg"), iter=CL.src("it"), body=[plain_stmt("b")], orelse=[plain_stmt("e")])
+                self_ = CL.mk_pending(cls, node, nsp, CL.mk_global(), m=m)
+                stack = nsp.fields["loop_stack"]
+                pushed = list(stack)
+                own_flag = self_.flow_ctrl_interrupt_expr
+
+                def bump_own():
+                    self_.interrupt_cnt = self_.interrupt_cnt + 1
+                levels_body = dict(levels)
+                levels_body["this-loop"] = (bump_own, own_flag)
+                g = self_.iter_node
+                # first request: the body block
+                stack_during = []
+                got = []
+                try:
+                    g.send(None)
+                except IRaise as e:
+                    if not isinstance(e.exc, IStop):
+                        raise
+                for call in calls:
+                    got.append(level_of(m, call, levels_body))
+                return dict(calls=calls, got=got, self_=self_, node=node, pushed=pushed, stack_after=list(stack))
+            paths = explore(run)
+            nm = f"pending_nodes._PendingLoop._iter_nodes[{cls_name},{place}]"
+            if not paths_or_undecided(R, nm + "/paths", paths):
+                continue
+            for p in paths:
+                sig = p.ctx.signature()
+                if p.kind != "ok":
+                    R.fail(f"{nm}/no-unexpected-raise/{sig}", repr(p.value))
+                    continue
+                v = p.value
+                calls = v["calls"]
+                ok = (len(calls) == 2 and calls[0]["branch"] is v["node"].body and calls[0]["converted"] is v["self_"].converted_body
+                      and calls[1]["branch"] is v["node"].orelse and calls[1]["converted"] is v["self_"].converted_orelse)
+                R.check(f"{nm}/body-then-else-each-into-its-own-list/{sig}", ok, repr(calls)[:300])
+                if not ok:
+                    continue
+                R.check(f"{nm}/body-split-on-this-loop/{sig}", v["got"][0] == dict(counter="this-loop", flag="this-loop"), repr(v["got"][0]),
+                        replay=dict(kind="skeleton"))
+                want = {"in-loop": dict(counter="enclosing-loop", flag="enclosing-loop"), "in-function": dict(counter="function", flag="function"),
+                        "elsewhere": dict(counter="none", flag="never")}[place]
+                R.check(f"{nm}/else-split-on-the-enclosing-level/{sig}", v["got"][1] == want, f"{v['got'][1]} expected {want}",
+                        replay=dict(kind="skeleton"))
+                R.check(f"{nm}/loop-is-on-the-stack-for-its-body-and-popped-for-its-else/{sig}",
+                        v["pushed"][-1:] == [v["self_"]] and v["self_"] not in v["stack_after"] and len(v["stack_after"]) == len(v["pushed"]) - 1,
+                        f"after constructor {v['pushed']!r}, after the generator finished {v['stack_after']!r}", replay=dict(kind="skeleton"))
+
+    # ---- def / class ----------------------------------------------------------------------
+    from suites import c07
+
+    def run_def(c):
+        calls = []
+        m = Machine(stubs=stubs(branch_stub(calls)))
+        node = ast.FunctionDef(name="f", args=ast.arguments(posonlyargs=[], args=[], kwonlyargs=[], kw_defaults=[], defaults=[]),
+                               body=[plain_stmt("b")], decorator_list=[], returns=None, lineno=7, col_offset=0)
+        flag = ast.Name(id=Hole("retflag", "ident", fresh=True))
+        inner = c07.mk_function_nsp(node)
+        inner.props["methods"]["get_flow_ctrl_expr"] = lambda o: flag
+        outerloop, lo = mk_level_loop("outerloop")
+        outer = CL.mk_nsp("outer", inner_nsp=[inner], loop_stack=[outerloop])
+        self_ = CL.mk_pending(pn.PendingFunctionDef, node, outer, CL.mk_global(), m=m)
+        drain(self_.iter_node)
+
+        def bump():
+            inner.fields["return_cnt"] = inner.fields["return_cnt"] + 1
+        got = [level_of(m, call, {"this-function": (bump, flag), "loop-around-the-def": lo}) for call in calls]
+        return dict(calls=calls, got=got, self_=self_, node=node, inner=inner)
+    paths = explore(run_def)
+    nm = "pending_nodes.PendingFunctionDef._iter_nodes"
+    if paths_or_undecided(R, nm + "/paths", paths):
+        for p in paths:
+            if p.kind != "ok":
+                R.fail(f"{nm}/no-unexpected-raise", repr(p.value))
+                continue
+            v = p.value
+            ok = len(v["calls"]) == 1 and v["calls"][0]["branch"] is v["node"].body and v["calls"][0]["converted"] is v["self_"].converted_body
+            R.check(f"{nm}/whole-body-into-the-function-list", ok, repr(v["calls"])[:300])
+            R.check(f"{nm}/body-split-on-the-function's-own-return-level", v["got"] == [dict(counter="this-function", flag="this-function")], repr(v["got"]),
+                    replay=dict(kind="skeleton"))
+            R.check(f"{nm}/body-converted-in-the-function's-own-namespace", v["self_"].has_internal_namespace is True and
+                    Machine().call_value(pn.PendingFunctionDef.get_internal_namespace, v["self_"]) is v["inner"], "")
+
+    def run_cls(c):
+        calls = []
+        m = Machine(stubs=stubs(branch_stub(calls)))
+        node = ast.ClassDef(name="C", bases=[], keywords=[], body=[plain_stmt("b")], decorator_list=[], lineno=3, col_offset=0)
+        symt = Opaque(("cls", "symt"), object, methods=dict(get_lineno=lambda o: 3, get_name=lambda o: "C"))
+        inner = CL.mk_nsp("cls", kinds=("class",), symt=symt, class_member_dict_expr=ast.Name(id=Hole("clsdict", "ident", fresh=True)))
+        outerloop, lo = mk_level_loop("outerloop")
+        outer = CL.mk_nsp("outer", inner_nsp=[inner], loop_stack=[outerloop])
+        self_ = CL.mk_pending(pn.PendingClassDef, node, outer, CL.mk_global(), m=m)
+        drain(self_.iter_node)
+        got = [level_of(m, call, {"loop-around-the-class": lo}) for call in calls]
+        return dict(calls=calls, got=got, self_=self_, node=node, inner=inner)
+    paths = explore(run_cls)
+    nm = "pending_nodes.PendingClassDef._iter_nodes"
+    if paths_or_undecided(R, nm + "/paths", paths):
+        for p in paths:
+            if p.kind != "ok":
+                R.fail(f"{nm}/no-unexpected-raise", repr(p.value))
+                continue
+            v = p.value
+            ok = len(v["calls"]) == 1 and v["calls"][0]["branch"] is v["node"].body and v["calls"][0]["converted"] is v["self_"].converted_body
+            R.check(f"{nm}/whole-body-into-the-class-list", ok, repr(v["calls"])[:300])
+            R.check(f"{nm}/a-class-body-is-no-interrupt-level", v["got"] == [dict(counter="none", flag="never")], repr(v["got"]))
+            R.check(f"{nm}/body-converted-in-the-class's-own-namespace", v["self_"].has_internal_namespace is True and
+                    Machine().call_value(pn.PendingClassDef.get_internal_namespace, v["self_"]) is v["inner"], "")
+
+
+# ----------------------------------------------------------------------------------------
+# G6: function frame
+
+
+def g_function_frame(R, tier):
+    from suites import c07
+    pn = CL.pn()
+    base = "pending_nodes.PendingFunctionDef.get_result"
+    for wrapper in ("list", "chain_call"):
+        for ret_used in (False, True):
+            def run(c):
+                m = Machine(stubs=stubs())
+                node = ast.FunctionDef(name="f", args=ast.arguments(posonlyargs=[], args=[], kwonlyargs=[], kw_defaults=[], defaults=[]),
+                                       body=[], decorator_list=[], returns=None, lineno=7, col_offset=0)
+                REG = CL.seg("RET", lambda t: [CL.absnode(("R", ("retbody", t)), ("R", tagstr(("retbody", t))))])
+                inner = c07.mk_function_nsp(node, flow_ctrl_return_used=ret_used, return_node_bodies=[REG])
+                outer = CL.mk_nsp("outer", inner_nsp=[inner])
+                self_ = CL.mk_pending(pn.PendingFunctionDef, node, outer, CL.mk_global(expr_wrapper=wrapper), m=m)
+                self_.converted_body = R_list("BODY")
+                res = m.call_value(pn.PendingFunctionDef.get_result, self_)
+                return dict(res=res, inner=inner, REG=REG, self_=self_)
+            paths = explore(run)
+            nm = f"{base}[{wrapper},{'return-flag' if ret_used else 'no-return-flag'}]"
+            if not paths_or_undecided(R, nm + "/paths", paths):
+                continue
+            for p in paths:
+                if p.kind != "ok":
+                    R.fail(f"{nm}/no-unexpected-raise", repr(p.value))
+                    continue
+                c, v = p.ctx, p.value
+                sym.set_ctx(c)
+                try:
+                    inner = v["inner"]
+                    res = v["res"]
+                    st = res[0].props.get("sem") if len(res) == 1 and isinstance(res[0], Opaque) else None
+                    lam = st[3] if st and st[0] == "store" else None
+                    R.check(f"{nm}/binds-one-lambda-to-the-function-name-in-the-defining-scope", st is not None and st[1] == "outer" and st[2] == "f"
+                            and isinstance(lam, ast.Lambda), repr(res))
+                    if not isinstance(lam, ast.Lambda):
+                        continue
+                    R.check(f"{nm}/lambda-takes-the-converted-parameters", lam.args is v["self_"].converted_args, repr(lam.args))
+                    body = lam.body
+                    shape = isinstance(body, ast.Subscript) and isinstance(body.value, ast.List) and (
+                        (isinstance(body.slice, ast.Constant) and body.slice.value == -1) or
+                        (isinstance(body.slice, ast.UnaryOp) and isinstance(body.slice.op, ast.USub) and getattr(body.slice.operand, "value", None) == 1))
+                    R.check(f"{nm}/body-is-a-list-whose-last-element-is-the-result", bool(shape), repr(body))
+                    if not shape:
+                        continue
+                    elts = body.value.elts
+                    retv_key = TL.nk(inner.fields["return_value_expr"].id)
+                    flag_key = ("name", TL.nk(inner.fields["flow_ctrl_return_expr"].id))
+                    first = elts[0]
+                    ok_first = isinstance(first, ast.NamedExpr) and TL.nk(first.target.id) == retv_key and isinstance(first.value, ast.Constant) and first.value.value is None
+                    last = elts[-1]
+                    ok_last = isinstance(last, ast.Name) and TL.nk(last.id) == retv_key
+                    R.check(f"{nm}/return-slot-is-None-first-and-read-last", ok_first and ok_last, f"first {first!r} last {last!r}",
+                            replay=dict(kind="skeleton"))
+                    # body statements strictly between, once, in order; flag initialised before them
+                    sem = control.Sem(flags={flag_key: z3.BoolVal(True)})
+                    sem.seq(list(elts[:-1]))
+                    st_times = [t for e, t in zip(sem.execs, sem.execs.times) if e[0] in ("stmt", "stmts")]
+                    body_ok = [e[:2] for e in sem.execs if e[0] in ("stmt", "stmts")] == [("stmts", tagstr(v["self_"].converted_body[0].items[0].tag[0][1]))] \
+                        if not c13._provably_zero(c, v["self_"].converted_body[0].length) else True
+                    R.check(f"{nm}/body-statements-once-in-order-inside-the-lambda", body_ok, repr(sem.execs))
+                    if ret_used:
+                        w = [(k, val, t) for (k, val, _), t in zip(sem.writes, sem.writes.times) if k == flag_key]
+                        init_ok = bool(w) and w[0][1] is False and (not st_times or w[0][2] < min(st_times))
+                        R.check(f"{nm}/return-flag-cleared-before-the-body", init_ok, repr(w), backend="z3", replay=dict(kind="skeleton"))
+                    lastreg = v["REG"].items[0][-1]
+                    semr = control.Sem(flags={flag_key: z3.BoolVal(False)})
+                    if not isinstance(lastreg, Opaque):
+                        semr.expr(lastreg)
+                    R.check(f"{nm}/every-registered-return-body-sets-the-flag-iff-it-is-tested", z3.is_true(z3.simplify(semr.state[flag_key])) == ret_used,
+                            f"registered return body ends with {lastreg!r}", backend="z3", replay=dict(kind="skeleton"))
+                finally:
+                    sym.set_ctx(None)
+
+
+# ----------------------------------------------------------------------------------------
+# the iterator wrapper preset (a closed term)
+
+
+def g_preset(R, tier):
+    from olvc import extract
+    pr = extract.repo_module("oneliner.presets.iter_wrapper")
+    ri = extract.repo_module("oneliner.reserved_identifiers")
+    base = "presets.iter_wrapper.iter_wrapper_body"
+    t = pr.iter_wrapper_body
+    ok = (isinstance(t, ast.NamedExpr) and t.target.id == ri.OL_ITER_WRAPPER == pr.iter_wrapper_name.id and ri.OL_ITER_WRAPPER.startswith("__ol_")
+          and isinstance(t.value, ast.Call) and isinstance(t.value.func, ast.Name) and t.value.func.id == "type" and len(t.value.args) == 3)
+    R.check(f"{base}/binds-a-class-to-the-reserved-name", bool(ok), ast.dump(t)[:200], backend="exhaustive-finite")
+    if not ok:
+        return
+    d = t.value.args[2]
+    members = {k.value: v for k, v in zip(d.keys, d.values)} if isinstance(d, ast.Dict) else {}
+    R.check(f"{base}/defines-the-iterator-protocol", set(members) == {"__init__", "__iter__", "__next__"} and all(isinstance(v, ast.Lambda) for v in members.values()),
+            repr(sorted(members)), backend="exhaustive-finite")
+    if set(members) != {"__init__", "__iter__", "__next__"}:
+        return
+    dump = lambda n: ast.dump(n)
+    # __iter__ returns self
+    it = members["__iter__"]
+    R.check(f"{base}/__iter__-returns-self", [a.arg for a in it.args.args] == ["self"] and dump(it.body) == dump(ast.Name("self", ast.Load())), dump(it.body),
+            backend="exhaustive-finite")
+    # __init__: self.it = iter(it) exactly once; self._break = False; returns None
+    ini = members["__init__"]
+    src = ast.unparse(ast.fix_missing_locations(ast.Expression(ini.body)))
+    calls_iter = sum(1 for n in ast.walk(ini.body) if isinstance(n, ast.Call) and isinstance(n.func, ast.Name) and n.func.id == "iter")
+    sets = [(n.args[1].value, dump(n.args[2])) for n in ast.walk(ini.body) if isinstance(n, ast.Call) and isinstance(n.func, ast.Name) and n.func.id == "setattr"
+            and dump(n.args[0]) == dump(ast.Name("self", ast.Load()))]
+    want_sets = [("it", dump(ast.Call(func=ast.Name("iter", ast.Load()), args=[ast.Name("it", ast.Load())], keywords=[]))), ("_break", dump(ast.Constant(False)))]
+    R.check(f"{base}/__init__-takes-iter()-once-and-clears-the-break-flag", [a.arg for a in ini.args.args] == ["self", "it"] and calls_iter == 1 and sets == want_sets,
+            src, backend="exhaustive-finite", replay=dict(kind="skeleton"))
+    ends_none = isinstance(ini.body, ast.Subscript) and isinstance(ini.body.value, ast.List) and isinstance(ini.body.value.elts[-1], ast.Constant) and ini.body.value.elts[-1].value is None
+    R.check(f"{base}/__init__-returns-None", bool(ends_none), src, backend="exhaustive-finite")
+    # __next__: broken -> StopIteration WITHOUT touching self.it; otherwise exactly next(self.it)
+    nx = members["__next__"]
+    b = nx.body
+    okn = isinstance(b, ast.IfExp) and dump(b.test) == dump(ast.Attribute(ast.Name("self", ast.Load()), "_break", ast.Load()))
+    R.check(f"{base}/__next__-tests-the-break-flag", bool(okn), ast.unparse(ast.fix_missing_locations(ast.Expression(b))), backend="exhaustive-finite")
+    if okn:
+        touches = [n for n in ast.walk(b.body) if isinstance(n, ast.Attribute) and n.attr == "it"]
+        R.check(f"{base}/__next__-never-advances-the-source-iterator-once-broken", not touches, ast.unparse(ast.fix_missing_locations(ast.Expression(b.body))),
+                backend="exhaustive-finite", replay=dict(kind="skeleton"))
+        stops = dump(b.body) == dump(ast.Call(func=ast.Name("next", ast.Load()), args=[ast.Call(func=ast.Name("iter", ast.Load()), args=[ast.List([], ast.Load())], keywords=[])], keywords=[]))
+        R.check(f"{base}/__next__-raises-StopIteration-once-broken", stops, ast.unparse(ast.fix_missing_locations(ast.Expression(b.body))), backend="exhaustive-finite")
+        adv = dump(b.orelse) == dump(ast.Call(func=ast.Name("next", ast.Load()), args=[ast.Attribute(ast.Name("self", ast.Load()), "it", ast.Load())], keywords=[]))
+        R.check(f"{base}/__next__-advances-the-source-iterator-exactly-once-otherwise", adv, ast.unparse(ast.fix_missing_locations(ast.Expression(b.orelse))),
+                backend="exhaustive-finite", replay=dict(kind="skeleton"))
+
+GROUPS = {"iter_branch": g_iter_branch, "iter_branch_steps": g_iter_branch_steps, "iter_nodes": g_iter_nodes, "interrupts": g_interrupts, "while": g_while, "for": g_for, "function_frame": g_function_frame, "preset": g_preset, "canary": c13.g_canary}
 REPLAY = {}
+
+
+# ----------------------------------------------------------------------------------------
+# replay: search a bounded space of control-flow skeletons for a program on which the REAL
+# converter's output behaves differently (trace of marker / condition / iterator calls)
+
+
+def _skeletons(depth, in_loop, in_func):
+    """statement skeletons as nested tuples"""
+    out = [("m",)]
+    if in_loop:
+        out += [("break",), ("continue",)]
+    if in_func:
+        out += [("return",), ("returnv",)]
+    if depth > 0:
+        for body in _blocks(depth - 1, in_loop, in_func):
+            out.append(("if", body, None))
+            for els in _blocks(depth - 1, in_loop, in_func)[:3]:
+                out.append(("if", body, els))
+        for body in _blocks(depth - 1, True, in_func):
+            out.append(("while", body, None))
+            out.append(("for", body, None))
+            for els in _blocks(depth - 1, in_loop, in_func)[:2]:
+                out.append(("while", body, els))
+                out.append(("for", body, els))
+    return out
+
+
+def _blocks(depth, in_loop, in_func):
+    st = _skeletons(depth, in_loop, in_func)
+    blocks = [[s] for s in st]
+    blocks += [[("m",), s] for s in st if s != ("m",)]
+    blocks += [[s, ("m",)] for s in st if s != ("m",)]
+    blocks += [[("m",), s, ("m",)] for s in st if s[0] in ("if", "while", "for")]
+    return blocks
+
+
+def _render(block, ind, counter):
+    lines = []
+    pad = "    " * ind
+    for s in block:
+        k = s[0]
+        counter[0] += 1
+        n = counter[0]
+        if k == "m":
+            lines.append(f"{pad}m({n})")
+        elif k in ("break", "continue"):
+            lines.append(f"{pad}{k}")
+        elif k == "return":
+            lines.append(f"{pad}return")
+        elif k == "returnv":
+            lines.append(f"{pad}return m({n})")
+        elif k == "if":
+            lines.append(f"{pad}if c({n}):")
+            lines += _render(s[1], ind + 1, counter)
+            if s[2] is not None:
+                lines.append(f"{pad}else:")
+                lines += _render(s[2], ind + 1, counter)
+        elif k == "while":
+            lines.append(f"{pad}while c({n}):")
+            lines += _render(s[1], ind + 1, counter)
+            if s[2] is not None:
+                lines.append(f"{pad}else:")
+                lines += _render(s[2], ind + 1, counter)
+        elif k == "for":
+            lines.append(f"{pad}for i{n} in it({n}):")
+            lines += _render(s[1], ind + 1, counter)
+            if s[2] is not None:
+                lines.append(f"{pad}else:")
+                lines += _render(s[2], ind + 1, counter)
+    return lines
+
+
+_PRELUDE = '''
+trace = []
+budget = [60]
+def m(n):
+    trace.append(('m', n))
+    return n
+def c(n):
+    budget[0] -= 1
+    v = budget[0] > 0 and (SCHED >> ((n * 7 + len(trace)) % 29)) & 1 == 1
+    trace.append(('c', n, v))
+    return v
+class It:
+    def __init__(self, n):
+        self.n = n
+        self.k = 0
+    def __iter__(self):
+        trace.append(('iter', self.n))
+        return self
+    def __next__(self):
+        trace.append(('next', self.n, self.k))
+        self.k += 1
+        if self.k > 2:
+            raise StopIteration
+        return self.k
+def it(n):
+    trace.append(('it', n))
+    return It(n)
+'''
+
+
+def replay_skeleton(rp):
+    import itertools
+    import random
+    from suites import replay_util as RU
+    rnd = random.Random(rp.get("seed", 5))
+    progs = []
+    for placement in ("module", "function", "method"):
+        in_func = placement != "module"
+        blocks = _blocks(2, False, in_func)
+        rnd.shuffle(blocks)
+        for b in blocks[:260]:
+            body = _render(b, 1 if placement == "function" else (2 if placement == "method" else 0), [0])
+            if placement == "function":
+                src = "def f():\n" + "\n".join(body) + "\nr = f()\n"
+            elif placement == "method":
+                src = "class K:\n    def f(self):\n" + "\n".join(body) + "\nr = K().f()\n"
+            else:
+                src = "\n".join(body) + "\n"
+            progs.append(src)
+    tried = 0
+    opts = [("ast.unparse", "chain_call", "if_expr"), ("oneliner", "list", "short_circuit")]
+    for src in progs:
+        for sched in (0x2AAAAAAA, 0x0F0F3355, 0x1B6DB6DB):
+            tried += 1
+            rep = RU.replay_source(src, "same-globals", names=["trace", "r"], opts=opts, prelude=_PRELUDE.replace("SCHED", str(sched)))
+            if rep.get("reproduced"):
+                rep["program"] = src
+                rep["schedule"] = hex(sched)
+                rep["skeletons_tried"] = tried
+                return rep
+    return dict(reproduced=False, skeletons_tried=tried)
+
+
+REPLAY["skeleton"] = replay_skeleton
+REPLAY["src"] = c13.replay_src
